@@ -28,6 +28,11 @@ What is checked for one case = (model, interface)                               
     raising ones                       [optimize-direction-leak (raising exit), optimize-direction-not-restored (return)]
  h. snapshot: a returned Solution is bit-identical after bound edits, objective edits, optimize() and slim_optimize()
     on the model                                                                             [snapshot]
+Model families: hand-made corner models; bcc.gen.random_model over the full gen.BOUNDS list; and (bcc.c04_util.forced_inf_model)
+networks and chains whose reactions mix the one-sided infinite FORCED bounds (-inf,-5), (-inf,-1), (2,+inf), (5,+inf) with
+the usual ones — gen.BOUNDS has no such pair, and Reaction.update_variable_bounds treats them in branches of their own.  In
+that family the bounds reach the solver through three API paths in turn: Reaction(id, lower_bound=, upper_bound=),
+reaction.bounds = (lb, ub) and reaction.lower_bound / reaction.upper_bound on the reaction inside the model (replay field "how").
 Not demanded (the statement is silent): what the accessors do for a non-optimal status, and that optimize() returns
 rather than raises for a non-optimal status.
 """
@@ -389,7 +394,7 @@ def _chunk(task):
 
 
 TIERS = {
-    "quick": {"forcedinf_chunks": 32, "forcedinf_per_chunk": 30, "chunks": 128, "per_chunk": 72, "sizes": [(3, 3), (3, 5), (4, 5)], "shipped": False},
+    "quick": {"forcedinf_chunks": 32, "forcedinf_per_chunk": 30, "chunks": 128, "per_chunk": 64, "sizes": [(3, 3), (3, 5), (4, 5)], "shipped": False},
     "thorough": {"forcedinf_chunks": 128, "forcedinf_per_chunk": 60, "chunks": 256, "per_chunk": 120, "sizes": [(3, 3), (3, 5), (4, 5), (5, 7), (6, 8)], "shipped": True},
 }
 
